@@ -9,7 +9,7 @@ META = {
                  "(size bound, merge-preservation, progress, fuel adequacy, part shape, rejection); model tied to the Rust "
                  "code by differential execution (both EntryPart::split copies through the public API, the real split writer "
                  "through a cfg(pna_verif) hook) with implementation-side oracles incl. the real multipart reader; "
-                 "sweep of --max-size through the real pna binary (split, concat, create --split) under a wall-clock limit",
+                 "sweep of --max-size through the real pna binary (split, concat, create --split) under a wall-clock limit; the sweep also feeds the parts of a split to another split (the part chain as input) and compares list / extract / part shape with the original",
     "level_text": "For the model, proved in Coq (closed under the global context): the first part of every split is <= max; "
                   "split and the whole writer preserve the chunk sequence up to stream-chunk cuts; every accepted run yields "
                   "part files <= max numbered 0,1,2,... with ANXT before AEND on all but the last; the repaired loop terminates "
